@@ -23,6 +23,7 @@ ASSUMPTIONS = ["comparison tolerance 1e-9 relative to max(1,|y|,|y_ref|*span)*sp
                "continuous inputs are covered on lattices only (DESIGN.md section 9)"]
 ANCHORS = {"match.py": [(92, 129), (244, 264), (334, 338)], "sorted_array_utils.py": [(236, 315)]}
 FORMS_HARNESSES = "all"
+FORMS_SKIP_QUICK = ("long-and-twin-intervals",)   # long inputs under every form: thorough tier only (cost)
 FORMS_WIDTH = {"long-and-twin-intervals": 2}
 EXPLANATION = "exhaustive enumeration of bounded input/configuration lattices against an exact reference model"
 PREFIX = "C01"
